@@ -16,6 +16,7 @@ case "$1" in
   (cd $LAB/verif && DASP_REPO=$LAB/repo ./setup.sh | tail -2)
   ;;
  run)
+  set +e
   patch=$(realpath $2); shift; shift
   git -C $LAB/repo checkout -q -- .
   git -C $LAB/repo apply $patch
